@@ -41,7 +41,7 @@ func (w wirePayload) response() *proj.Response {
 func deliverHTTP(ctx context.Context, s *proj.Server, e *univ.Exec, c Case) (out []*proj.Response, rejected bool, fail *vfrun.Failure) {
 	s.U.SetExec(e)
 	var rec atomic.Int64
-	h := hsrv.New(s, hsrv.Config{Transports: []string{"sse", "multipartmixed", "post"}, Recovers: &rec})
+	h := hsrv.New(s, hsrv.Config{Transports: []string{"sse", "multipartmixed", "post"}, Recovers: &rec, MarkErrors: c.Presenter})
 	defer func() {
 		if len(out) > 0 {
 			out[len(out)-1].Recovers = int(rec.Load())
